@@ -22,14 +22,18 @@ HARNESSES = {
 }
 
 
+THREADED = ('cq', 'cl', 'ts')
+
+
 def std_stages(harness, quick_cases, thorough_cases, fuzz_runs=0, quick_procs=8, enum=False, max_size=100):
     quick = [dict(engine='replay', harness=harness)]
     thorough = [dict(engine='replay', harness=harness)]
     if enum:
         quick.append(dict(engine='enum', harness=harness))
         thorough.append(dict(engine='enum', harness=harness))
-    quick.append(dict(engine='rc', harness=harness, procs=quick_procs, cases=quick_cases, max_size=max_size, timeout=900))
-    thorough.append(dict(engine='rc', harness=harness, procs=16, cases=thorough_cases, max_size=max_size, timeout=5400))
+    chunk = 25000 if harness in THREADED else 0   # harnesses that create threads: bounded process lifetime (ASan keeps a record per thread)
+    quick.append(dict(engine='rc', harness=harness, procs=quick_procs, cases=quick_cases, max_size=max_size, timeout=900, chunk=chunk))
+    thorough.append(dict(engine='rc', harness=harness, procs=16, cases=thorough_cases, max_size=max_size, timeout=5400, chunk=chunk))
     if fuzz_runs:
         thorough.append(dict(engine='fuzz', harness=harness, procs=8, runs=fuzz_runs, timeout=3600))
     return dict(stages=quick), dict(stages=thorough)
@@ -48,8 +52,9 @@ def multi_stages(parts, fuzz=None, enum=None):
     for part in parts:
         h, qc, tc = part[0], part[1], part[2]
         qp = part[3] if len(part) > 3 else 8
-        quick.append(dict(engine='rc', harness=h, procs=qp, cases=qc, timeout=900))
-        thorough.append(dict(engine='rc', harness=h, procs=16, cases=tc, timeout=5400))
+        chunk = 25000 if h in THREADED else 0
+        quick.append(dict(engine='rc', harness=h, procs=qp, cases=qc, timeout=900, chunk=chunk))
+        thorough.append(dict(engine='rc', harness=h, procs=16, cases=tc, timeout=5400, chunk=chunk))
     for h, runs in (fuzz or []):
         thorough.append(dict(engine='fuzz', harness=h, procs=8, runs=runs, timeout=3600))
     return dict(stages=quick), dict(stages=thorough)
@@ -60,7 +65,7 @@ TSAN_ENV = {'TSAN_OPTIONS': 'suppressions=/verif/tools/tsan.supp halt_on_error=0
 
 def tsan_stage(cases):
     """real threads + ThreadSanitizer (harness ts): sees a lock removed around a single container call, which is atomic under the controlled scheduler"""
-    return dict(engine='rc', harness='ts', variant='tsan', procs=8, cases=cases, timeout=(300 if cases <= 1000 else 3600), env=TSAN_ENV)
+    return dict(engine='rc', harness='ts', variant='tsan', procs=8, cases=cases, timeout=(300 if cases <= 1000 else 3600), env=TSAN_ENV, chunk=5000)
 
 
 def sched_enum(stages, harness, k, procs, timeout, at=1):
@@ -129,7 +134,7 @@ prop('C19', 'exploration',
      COMMON_ASSUME + ['the 2^32 additions are replaced by the EVENTPP_VERIF accessor verifSetCounterBeforeMax (forward only)'],
      q, t)
 
-q, t = multi_stages([('cbl', 2000, 100000), ('queue', 2000, 100000), ('cbl_f', 250, 10000), ('queue_f', 100, 10000)])
+q, t = multi_stages([('cbl', 2000, 100000), ('queue', 2000, 100000), ('cbl_f', 250, 2000), ('queue_f', 100, 1500)])
 prop('C08', 'exploration',
      'ledger oracle over the cbl program classes (every construction/destruction of callbacks and payloads recorded by address; LeakSanitizer confirmation when the heap '
      'does not return to its pre-case size); the fault-enumeration variants (see C09) re-run the same histories with an exception injected at every fault point of sampled operations; '
@@ -176,7 +181,7 @@ t['stages'].append(tsan_stage(20000))
 prop('C06', 'exploration',
      'generated thread programs (2-5 threads x <=5 calls: enqueue, DisableQueueNotify scopes, process, processOne, processIf, processUntil, takeEvent, peekEvent, clearEvents, emptyQueue) on EventQueue '
      '(scheduler mutex and the library SpinLock) and HeterEventQueue, executed under a harness-owned scheduler (random walk, PCT, sticky random; schedule bytes are part of the case), plus every schedule with <=1 (quick) / <=2 (thorough) preemptions of 42 fixed small thread programs (bounded-exhaustive stage); oracle = per-event '
-     'ledger (exactly one of dispatched-once / taken-once / destroyed-inside-clearEvents), payload intact, call results, per (producer, consumer) FIFO (an inversion is legitimate only when the consumer\'s own processIf dispatched the newer event and skipped the older one; an inversion behind the put-back of another thread\'s processIf/processUntil is known finding E11, counted and excluded; any other is a violation), no deadlock, '
+     'ledger (exactly one of dispatched-once / taken-once / destroyed-inside-clearEvents), payload intact (every copy / move of a payload is a scheduling point in new cases), call results, per (producer, consumer) FIFO (an inversion is legitimate only when the consumer\'s own processIf dispatched the newer event and skipped the older one; an inversion behind the put-back of another thread\'s processIf/processUntil is known finding E11, counted and excluded; any other is a violation), no deadlock, '
      'and mutual exclusion of the hook-declared critical sections (no thread arrives inside a section over queueList / freeList / the listener map while another thread is parked inside a section over the same container); '
      'second stage = the same call vocabulary on real threads (std::mutex and the library SpinLock, whose acquire/release orders ThreadSanitizer models; OS schedule) under ThreadSanitizer with the documented unlocked reads suppressed, exactly-once delivery counters; '
      'non-trivial = a producer call overlapped a consumer call, two consumer calls overlapped, and a preemption happened inside a critical section or at an unlocked pre-check',
@@ -187,7 +192,7 @@ q, t = std_stages('cq', 10000, 200000)
 sched_enum(q, 'cq', 1, 8, 900)
 sched_enum(t, 'cq', 2, 16, 5400)
 prop('C07', 'exploration',
-     'generated programs of waiter threads (wait / waitFor then drain), enqueuers (optionally inside nested DisableQueueNotify scopes) and processors under the harness-owned scheduler, plus every schedule with <=1 (quick) / <=2 (thorough) preemptions of 24 fixed small programs (bounded-exhaustive stage); '
+     'generated programs of waiter threads (wait / waitFor then drain), enqueuers (optionally inside nested DisableQueueNotify scopes) and processors (process, processOne, processIf, processUntil) under the harness-owned scheduler, plus every schedule with <=1 (quick) / <=2 (thorough) preemptions of 24 fixed small programs (bounded-exhaustive stage); '
      'oracle = at every quiescent state (no runnable thread) a parked waiter with pending events and no DisableQueueNotify alive is a lost wake-up; otherwise waiters are released by sentinel enqueues; '
      'every returned wait must have had a step with a possibly non-empty queue and no certainly-alive DisableQueueNotify; waitFor false only after its timeout fired; '
      'non-trivial = a wait was in progress when an enqueue or the destruction of a DisableQueueNotify completed',
@@ -207,7 +212,7 @@ prop('C11', 'exploration',
 
 q, t = std_stages('remover', 8000, 150000)
 prop('C15', 'exploration',
-     'rapidcheck-generated histories over a pool of 3 ScopedRemovers and 2 targets (CallbackList, EventDispatcher or EventQueue): add through a remover (append/prepend/insert), add directly, remove through a remover '
+     'rapidcheck-generated histories over a pool of 3 ScopedRemovers and 2 targets (CallbackList, EventDispatcher, EventQueue, or an EventDispatcher keyed by a user type): add through a remover (append/prepend/insert), add directly, remove through a remover '
      '(own, foreign, direct, stale handles), remove directly, reset, setCallbackList/setDispatcher, move construction, move assignment into empty and non-empty removers, swap, destruction, invocation; '
      'oracle = ownership model (listener -> responsible remover | none | limbo after a move assignment) compared with the enumerated content after every op and after all removers are gone; '
      'non-trivial = a move assignment between two removers that both own listeners',
@@ -227,12 +232,12 @@ q, t = std_stages('heter', 3000, 150000, fuzz_runs=150000)
 q['stages'].append(dict(engine='rc', harness='heter', variant='gxx', procs=8, cases=1500, timeout=900))
 t['stages'].append(dict(engine='rc', harness='heter', variant='gxx', procs=16, cases=50000, timeout=3600))
 prop('C14', 'exploration',
-     'rapidcheck-generated histories on HeterEventQueue (which contains the HeterEventDispatcher and HeterCallbackList paths) over three prototype lists chosen so that first-match order matters and payloads differ in '
-     'size and triviality: <void(), void(int), void(const string&), void(const Big&)>, <void(long), void(int), void(Tracked,int)> (an int argument matches the first, void(int) is shadowed), and a std::string-keyed '
-     'include-event list; callables and arguments of every shape (exact, convertible, generic, shadowed), process/processOne/processIf with a predicate of each prototype and one callable with two; listeners that enqueue a further event each time they run (bounded), so that events arrive while a processing call runs; '
+     'rapidcheck-generated histories on HeterEventQueue (which contains the HeterEventDispatcher and HeterCallbackList paths) over four prototype lists chosen so that first-match order matters and payloads differ in '
+     'size and triviality: <void(), void(int), void(const string&), void(const Big&)>, <void(long), void(int), void(Tracked,int)> (an int argument matches the first, void(int) is shadowed), a std::string-keyed '
+     'include-event list, and <void(string&), void(const string&), void(int)> (non-const lvalues select the first, const lvalues and temporaries the second); callables and arguments of every shape (exact, convertible, generic, shadowed), process/processOne/processIf with a predicate of each prototype and one callable with two; listeners that enqueue a further event each time they run (bounded), so that events arrive while a processing call runs; '
      'expected prototype indices are a hand-written table; oracle = per-prototype list models, argument summaries, exactly-once FIFO, processIf examines only its prototypes and leaves the rest in place; '
      'built with clang++ and g++; non-trivial = a processIf with an event of a foreign prototype pending, on a queue where a slot was recycled across prototypes',
-     COMMON_ASSUME + ['prototype lists are the three rows of the table', 'which of the matching prototypes a multi-prototype predicate examines is left open (only "never a foreign one, never twice, dispatch iff true")'],
+     COMMON_ASSUME + ['prototype lists are the four rows of the table', 'known finding E12: an argument kind that selects a non-const-reference prototype is dispatched directly but not enqueued (counted and excluded; the replay tier shows it)', 'which of the matching prototypes a multi-prototype predicate examines is left open (only "never a foreign one, never twice, dispatch iff true")'],
      q, t)
 
 q, t = std_stages('anydata', 12000, 300000, enum=True)
@@ -257,12 +262,12 @@ q, t = std_stages('filter', 3000, 150000)
 q['stages'].append(dict(engine='rc', harness='filter', variant='clang4', procs=8, cases=1200, timeout=900))
 t['stages'].append(dict(engine='rc', harness='filter', variant='clang4', procs=16, cases=50000, timeout=3600))
 prop('C12', 'exploration',
-     'rapidcheck-generated histories of appendFilter/removeFilter (also from inside filters and listeners), listener changes and dispatches, direct and queued, over 8 subjects: EventDispatcher by-value prototype, '
-     'EventQueue with reference prototype (only the second argument rewritable), MixinFilter followed / preceded by a counting user mixin, HeterEventDispatcher and HeterEventQueue with MixinHeterFilter, a canContinueInvoking '
-     'policy on void(Ev&), and argumentAdapter down-casts (Derived& from Base&, shared_ptr<Derived> from shared_ptr<Base>); listeners plain, conditionalFunctor-wrapped and argumentAdapter-wrapped (arithmetic conversions); '
+     'rapidcheck-generated histories of appendFilter/removeFilter (also from inside filters and listeners), listener changes and dispatches, direct and queued, over 12 subjects: EventDispatcher by-value prototype, '
+     'EventQueue with reference prototype (only the second argument rewritable), MixinFilter followed / preceded by a counting user mixin (once with a variadic template hook, once with an ordinary member hook taking non-const references), HeterEventDispatcher and HeterEventQueue with MixinHeterFilter, a canContinueInvoking '
+     'policy on void(Ev&), a canContinueInvoking policy and conditionalFunctor conditions taking movable arguments by value, and argumentAdapter down-casts (Derived& from Base&, shared_ptr<Derived> from shared_ptr<Base>); listeners plain, conditionalFunctor-wrapped and argumentAdapter-wrapped (arithmetic conversions); '
      'oracle = filter-chain model (insertion order, shared mutable arguments, first false stops filters and listeners of that dispatch only, removed filters never run) in lock-step with argument comparison at every filter, '
      'condition and listener; non-trivial = (>=2 filters with a rewriting filter followed by a block) or a stop by canContinueInvoking or an adapter-wrapped listener',
-     COMMON_ASSUME + ['subjects are the 8 rows of the configuration table', 'routing uses the event computed before the filters run (rewriting the key argument does not re-route): filters only use the exclude-event form',
+     COMMON_ASSUME + ['subjects are the 12 rows of the configuration table', 'routing uses the event computed before the filters run (rewriting the key argument does not re-route): filters only use the exclude-event form',
                       'HeterEventQueue with MixinHeterFilter does not compile for queued dispatch (stored arguments are const): heterogeneous filters are exercised on direct dispatch only'],
      q, t)
 
@@ -282,9 +287,9 @@ prop('C03', 'exploration',
      q, t,
      technique='property-based testing of generated thread programs x generated schedules under a controlled cooperative scheduler, linearizability (Wing-Gong) oracle; preemption-bounded exhaustive schedule enumeration of fixed small programs; generated real-thread programs under ThreadSanitizer')
 
-q, t = multi_stages([('cbl_f', 200, 20000), ('queue_f', 200, 20000), ('remover_f', 200, 20000), ('heter_f', 200, 20000)])
+q, t = multi_stages([('cbl_f', 200, 3000), ('queue_f', 200, 2000), ('remover_f', 200, 3000), ('heter_f', 200, 3000)])
 prop('C09', 'fault_enumeration',
-     'generated histories (the C02/C10 program classes) executed once fault-free while counting the fault points of every top-level operation (user code: callback entry, callback copy, payload copy; memory allocation through a '
+     'generated histories (the C02/C10 program classes) executed once fault-free while counting the fault points of every top-level operation (user code: callback entry, callback copy, payload copy, copy / move / assignment of a user event-key type in the remover harness; memory allocation through a '
      'replaced operator new), then re-executed from scratch once per (operation i, position k) for every k up to the count (<=48, <=8 operations and <=120 faulted executions per program), the k-th fault point throwing; '
      'a second fault at a later operation in a third of the executions. Oracle: exactly the injected exception reaches the caller (terminate = failure), strong guarantee for listener management / assignment / copies '
      '(model snapshot restored and compared by enumeration at once), invocations leave what the callbacks did, the history continues in lock-step with the model, ledger empty and LeakSanitizer clean at the end; '
@@ -301,7 +306,7 @@ t = dict(stages=[dict(engine='replay', harness='config'), dict(engine='rc', harn
                  dict(engine='config-matrix', harness='config')])
 prop('C20', 'exploration',
      'rapidcheck-generated flat programs (listener changes, dispatch and enqueue with lvalue and temporary keys/arguments, process/processOne/processIf/takeEvent/peekEvent/emptyQueue/waitFor(0), copy- and move-construction of the '
-     'queue over pre-filled placement storage followed by an immediate emptyQueue/waitFor) interpreted for 8 policy instantiations (Threading Multiple/SpinLock/Single x Map auto/std::map/unordered_map/user map x Callback '
+     'queue over pre-filled placement storage followed by an immediate emptyQueue/waitFor, listeners that append a further listener each time they run) interpreted for 8 policy instantiations (Threading Multiple/SpinLock/Single x Map auto/std::map/unordered_map/user map x Callback '
      'std::function/custom functor x ArgumentPassing auto/include/exclude x key int/std::string) and compared with a built-in reference model; the first programs of the run are dumped and re-run by stand-alone builds of the '
      'same C++11-clean source with g++ and clang++, -O0 and -O2, -std=c++11..20 (quick: 4 builds, thorough: 16) with two storage fill patterns; non-trivial = a temporary key/argument or an object constructed over non-zero storage and queried before any write',
      COMMON_ASSUME + ['"any conforming compiler" is g++ 12 and clang++ 14; sanitizer builds are not part of the matrix (the generating build is clang++ ASan/UBSan)',
